@@ -252,6 +252,23 @@ def check_distinct(facts, rep, RULE):
             # two properties' identifiers are compared for equality and a hit is an error
             if any(x.get("k") == "bin" and x["op"] == "Eq" and reads_prop_name(x["l"]) and reads_prop_name(x["r"]) for x, _ in walk(n["cond"])):
                 found = n
+        if found is not None:
+            # the test compares neighbours (`windows(2)`): it is complete only on a vector sorted by the compared key
+            wins = [x for x, _ in walk(found["cond"]) if x.get("k") == "mcall" and x["name"] == "windows"]
+            if wins:
+                stmts = top_stmts(h)
+                def top_ix(x):
+                    for i_, t_ in enumerate(stmts):
+                        if t_ is x or contains_node(t_, x):
+                            return i_
+                    return -1
+                recv = src(strip_refs(wins[0]["recv"]))
+                sorts = [x for x, _ in walk(h["body"]) if x.get("k") == "mcall" and x["name"] in ("sort_by", "sort_by_key", "sort", "sort_unstable_by", "sort_unstable_by_key", "sort_by_cached_key")
+                         and src(strip_refs(x["recv"])) == recv and (x["name"] == "sort" or (x.get("args") and reads_prop_name(x["args"][0])))]
+                ok_sorted = any(0 <= top_ix(x) < top_ix(found) for x in sorts)
+                rep.ob(RULE, "neighbour-test-on-sorted-names", ok_sorted,
+                       "the neighbour comparison runs on the vector sorted by the compared identifier" if ok_sorted else
+                       "colliding identifiers are looked for among *neighbours* (`windows(2)`) but the vector is not sorted by that identifier before the test: two properties that collide with a third name between them escape it and the struct gets duplicate fields", found.get("sp"))
         rep.ob(RULE, "properties-distinct-before-commit", found is not None,
                "colliding property identifiers are rejected: `%s`" % src(found["cond"])[:90] if found else
                "no check that two JSON property names do not sanitise to the same field identifier (e.g. `foo-bar` and `foo_bar`): the struct would have duplicate fields", c.fns[h["fn"]].get("sp"))
@@ -264,5 +281,8 @@ def check_distinct(facts, rep, RULE):
                 n_g += 1
                 g = c16.guard_for_insert(h, n, "name_to_id")
                 rep.ob(RULE, "items-distinct-before-commit:%s" % h["fn"], g is not None, g or "a type name is committed without checking that it is not already taken (two items of one name)", n.get("sp"))
+                if g and g.startswith("preceded by"):
+                    why = c16.hit_rejects_other_ids(c, h, n, "name_to_id")
+                    rep.ob(RULE, "taken-name-always-rejected:%s" % h["fn"], why is None, "a name held by another id is always rejected before the commit" if why is None else why, n.get("sp"))
     rep.floor(RULE, "name commits", n_g, 2)
 
